@@ -298,9 +298,20 @@ Definition shift_before_fix (p : period) (n : Z) : period :=
           (Z.rem (Z.rem (t - 1) L + L) L + 1)
   end.
 
-(* _TP_NEXT_PERIOD of the transpiler (fill_time_series) *)
-Definition next_impl (p : period) : period :=
+(* _TP_NEXT_PERIOD of the transpiler (fill_time_series) BEFORE fix 50e3447 (regression witness only): constant limits *)
+Definition next_before_fix (p : period) : period :=
   if period_limit_impl (p_ind p) <? p_num p + 1 then mkP (p_year p + 1) (p_ind p) 1
+  else mkP (p_year p) (p_ind p) (p_num p + 1).
+(* vtl_periods_in_year (fix 50e3447): WEEKOFYEAR(MAKE_DATE(y,12,28)) / DAYOFYEAR(MAKE_DATE(y,12,31)) for W / D *)
+Definition periods_in_year_impl (i : ind) (y : Z) : Z :=
+  match i with
+  | IW => iso_week_of (days_from_civil y 12 28)
+  | ID => doy_of (days_from_civil y 12 31)
+  | _ => period_limit_impl i
+  end.
+(* _TP_NEXT_PERIOD of the transpiler (fill_time_series), after the fix *)
+Definition next_impl (p : period) : period :=
+  if periods_in_year_impl (p_ind p) (p_year p) <? p_num p + 1 then mkP (p_year p + 1) (p_ind p) 1
   else mkP (p_year p) (p_ind p) (p_num p + 1).
 
 (* DuckDB date builtins; None = DuckDB raises *)
@@ -387,12 +398,18 @@ Definition sres_cat (a : string) (b : sres) : sres := match b with SOk s => SOk 
 (* CAST(varchar AS INTEGER) / TRY_CAST, on the strings that occur here: optional surrounding blanks are not modelled *)
 Definition cast_int (s : string) : option Z := parse_digits s.
 
-(* vtl_period_to_string: CAST(year AS VARCHAR) is NOT padded *)
-Definition period_to_string_impl (p : period) : string :=
+(* the year field after fix aa363dc: vtl_year_str(y) = LPAD(CAST(y AS VARCHAR), 4, '0') in SQL, f"{year:04d}" in Python (years are
+   0..9999 on both sides, where the two coincide) *)
+Definition zfill4 (y : Z) : string := lpad0 (dec_int y) 4.
+(* vtl_period_to_string, parameterised by the rendering of the year *)
+Definition period_to_string_with (yr : Z -> string) (p : period) : string :=
   match p_ind p with
-  | IA => dec_int (p_year p) ++ "A"
-  | i => dec_int (p_year p) ++ "-" ++ ind_letter i ++ lpad0 (dec_int (p_num p)) (num_width i)
+  | IA => yr (p_year p) ++ "A"
+  | i => yr (p_year p) ++ "-" ++ ind_letter i ++ lpad0 (dec_int (p_num p)) (num_width i)
   end.
+Definition period_to_string_impl : period -> string := period_to_string_with zfill4.
+(* before the fix (regression witness only): CAST(year AS VARCHAR), not padded *)
+Definition period_to_string_before_fix : period -> string := period_to_string_with dec_int.
 
 (* vtl_period_parse: positions 1-4 year, 6 indicator, 7.. number; raw letters *)
 Definition period_parse_impl (s : string) : option (Z * string * Z) :=
@@ -546,35 +563,40 @@ Definition py_handler (s : string) : pyres :=
         else py_build y l 1
     end.
 
-(* __str__ and the four *_representation methods: f"{self.year}" is NOT zero padded *)
-Definition py_str (p : period) : string :=
+(* __str__ and the four *_representation methods, parameterised by the rendering of the year: f"{self.year:04d}" after fix
+   aa363dc, f"{self.year}" before *)
+Definition py_str_with (yr : Z -> string) (p : period) : string :=
   match p_ind p with
-  | IA => dec_int (p_year p) ++ "A"
-  | IW | IM => dec_int (p_year p) ++ "-" ++ ind_letter (p_ind p) ++ (if p_num p <? 10 then "0" else "") ++ dec_int (p_num p)
-  | ID => dec_int (p_year p) ++ "-D" ++ (if p_num p <? 10 then "00" else if p_num p <? 100 then "0" else "") ++ dec_int (p_num p)
-  | i => dec_int (p_year p) ++ "-" ++ ind_letter i ++ dec_int (p_num p)
+  | IA => yr (p_year p) ++ "A"
+  | IW | IM => yr (p_year p) ++ "-" ++ ind_letter (p_ind p) ++ (if p_num p <? 10 then "0" else "") ++ dec_int (p_num p)
+  | ID => yr (p_year p) ++ "-D" ++ (if p_num p <? 10 then "00" else if p_num p <? 100 then "0" else "") ++ dec_int (p_num p)
+  | i => yr (p_year p) ++ "-" ++ ind_letter i ++ dec_int (p_num p)
   end.
+Definition py_str : period -> string := py_str_with zfill4.
+Definition py_str_before_fix : period -> string := py_str_with dec_int.
 Definition py02 (n : Z) : string := (if n <? 10 then "0" else "") ++ dec_int n.
 Definition py03 (n : Z) : string := (if n <? 10 then "00" else if n <? 100 then "0" else "") ++ dec_int n.
-(* period_to_date(year, "D", n) = strptime(f"{year}-D{n}", "%Y-D%j"): %Y needs four digits, so years below 1000 raise ValueError;
-   date.isoformat() pads the year to 4 digits *)
+(* period_to_date(year, "D", n) = strptime(f"{year:04d}-D{n}", "%Y-D%j"): fails below `lowest` (1 after the fix: datetime has no year
+   0; 1000 before it: %Y needs four digits); date.isoformat() pads the year to 4 digits *)
 Inductive ckres := CkOk (s : string) | CkErr (code : string).
-Definition py_iso_date (y n : Z) : ckres :=
-  if y <? 1000 then CkErr "VE" else CkOk (render_date (jan1 y + (n - 1))).
-Definition py_render (f : fmt) (p : period) : ckres :=
-  let y := dec_int (p_year p) in let n := p_num p in let i := p_ind p in
+Definition py_iso_date (lowest y n : Z) : ckres :=
+  if y <? lowest then CkErr "VE" else CkOk (render_date (jan1 y + (n - 1))).
+Definition py_render_with (yr : Z -> string) (lowest : Z) (f : fmt) (p : period) : ckres :=
+  let y := yr (p_year p) in let n := p_num p in let i := p_ind p in
   match f with
   | FVtl => CkOk (match i with IA => y | _ => y ++ ind_letter i ++ dec_int n end)
   | FGregorian => match i with
-                  | IA => CkOk y | IM => CkOk (y ++ "-" ++ py02 n) | ID => py_iso_date (p_year p) n
+                  | IA => CkOk y | IM => CkOk (y ++ "-" ++ py02 n) | ID => py_iso_date lowest (p_year p) n
                   | _ => CkErr "2-1-19-21" end
   | FReporting => CkOk (match i with
                         | IA => y ++ "-A1" | IW | IM => y ++ "-" ++ ind_letter i ++ py02 n
                         | ID => y ++ "-D" ++ py03 n | _ => y ++ "-" ++ ind_letter i ++ dec_int n end)
   | FNatural => match i with
-                | IA => CkOk y | IM => CkOk (y ++ "-" ++ py02 n) | ID => py_iso_date (p_year p) n
+                | IA => CkOk y | IM => CkOk (y ++ "-" ++ py02 n) | ID => py_iso_date lowest (p_year p) n
                 | IW => CkOk (y ++ "-W" ++ py02 n) | _ => CkOk (y ++ "-" ++ ind_letter i ++ dec_int n) end
   end.
+Definition py_render : fmt -> period -> ckres := py_render_with zfill4 1.
+Definition py_render_before_fix : fmt -> period -> ckres := py_render_with dec_int 1000.
 
 (* max_periods_in_year / next_period / previous_period / shift_period of TimeHandling.py *)
 Definition py_max_periods (i : ind) (y : Z) : Z :=
@@ -682,15 +704,8 @@ Definition tie_scalar_rows (i : ind) (y : Z) : list (list Z) :=
 Definition tie_shift_row (p : period) (ns : list Z) : list Z := map (fun n => enc_op (shift_impl p n)) ns.
 Definition tie_shift_rows (i : ind) (y : Z) (ns : list Z) : list (list Z) :=
   map (fun n => tie_shift_row (mkP y i n) ns) (zrange 1 (static_max i)).
-(* where the step used by fill_time_series (still the constant limits) leaves the calendar: num * 10^7 + calendar result *)
-Definition tie_next_diff (i : ind) (y : Z) : list Z :=
-  flat_map (fun num => let p := mkP y i num in
-    if period_eqb (next_impl p) (next_period p) then [] else [num * 10000000 + enc_p (next_period p)])
-    (zrange 1 (periods_in_year i y)).
-
 Definition tie_period_fp (i : ind) (y : Z) (ns : list Z) : list Z :=
-  [periods_in_year i y; fpz (List.concat (tie_scalar_rows i y)); fpz (List.concat (tie_shift_rows i y ns))]
-  ++ tie_next_diff i y.
+  [periods_in_year i y; fpz (List.concat (tie_scalar_rows i y)); fpz (List.concat (tie_shift_rows i y ns))].
 
 (* DuckDB date builtins against Calendar, one row per day of year y; vtl_time_agg_date; vtl_dateadd for the shifts ns *)
 Definition tie_calendar_row (ns : list Z) (us : list ind) (z : Z) : list Z :=
